@@ -43,6 +43,10 @@ func c05RunCase(c *Case) (string, []Fail) {
 		return c05BacklogCase(c.Z)
 	case 6:
 		return c05StallCase(c.Z)
+	case 7:
+		return c05RecoveryCase(c.Z)
+	case 8:
+		return c05LiveRestartCase(c.Z)
 	}
 	return "badcase", nil
 }
@@ -61,6 +65,35 @@ func c05Gen(g *Gen) {
 		g.Case(5, nil, []int64{int64(g.R.U64() & 0xffffff), int64(1024 + g.R.Intn(3))})
 		g.Count("backlog-restart")
 		g.Count("backlog-restart")
+	}
+	// start-up recovery of a backlog racing the pipeline worker, on the real hybrid buffer (kind 7):
+	// Z = seed, backlog, new chunks per life, window, lives, mode
+	for i := 0; i < g.Pick(3, 12); i++ {
+		g.Case(7, nil, []int64{int64(g.R.U64() & 0xffffff), int64(1500 + g.R.Intn(2000)), int64(1 + g.R.Intn(4)), int64([]int{2, 8, 64, 4096}[g.R.Intn(4)]), int64(1 + g.R.Intn(2)), int64(i % 3)})
+		g.Count("recovery-race-large")
+	}
+	for i := 0; i < g.Pick(9, 60); i++ {
+		g.Case(7, nil, []int64{int64(g.R.U64() & 0xffffff), int64(g.R.Intn(40)), int64(g.R.Intn(5)), int64(1 + g.R.Intn(8)), int64(1 + g.R.Intn(3)), int64(i % 3)})
+		g.Count("recovery-race-small")
+	}
+	if g.Thorough() {
+		for i := 0; i < 3; i++ {
+			g.Case(7, nil, []int64{int64(g.R.U64() & 0xffffff), int64(8000 + g.R.Intn(4000)), int64(1 + g.R.Intn(8)), 8, 2, int64(i)})
+			g.Count("recovery-race-large")
+		}
+	}
+	// restart / reload of the whole agent against a backlog with traffic at that instant (kind 8): Z = seed, n, m, mode
+	g.Case(8, nil, []int64{int64(g.R.U64() & 0xffffff), int64(1500 + g.R.Intn(500)), int64(20 + g.R.Intn(30)), 0})
+	g.Count("live-restart")
+	for i := 0; i < g.Pick(2, 8); i++ {
+		g.Case(8, nil, []int64{int64(g.R.U64() & 0xffffff), int64(1000 + g.R.Intn(1000)), int64(100 + g.R.Intn(100)), 1})
+		g.Count("live-reload")
+	}
+	if g.Thorough() {
+		for i := 0; i < 4; i++ {
+			g.Case(8, nil, []int64{int64(g.R.U64() & 0xffffff), int64(3000 + g.R.Intn(2000)), int64(20 + g.R.Intn(60)), 0})
+			g.Count("live-restart")
+		}
 	}
 	// a stalled pipeline worker: flushes time out (kind 6): Z = seed, batch size, batches that wait / time out
 	for i := 0; i < g.Pick(4, 30); i++ {
